@@ -50,6 +50,16 @@ NEEDS = {
     "C17-2": "two parameter files with the same base name in different directories (`-i envA/params.json -i envB/params.json`): the second is silently dropped",
     "C18-2": "parse_int() on a string that is no i64 but parses as a float (\"3.7\", \"nan\", \"1e400\", \"9223372036854775808\"): a value instead of an error",
     "C19-2": "a top-level float property with zero fraction (75.0, 1.0E+2): emitted as the integer literal 75, which is not comparable with the template's float",
+    "C01-3": "a map literal on the right of ==/!= (inline or via let) compared with a document map that is a strict subset of it (length check dropped from compare_eq)",
+    "C02-3": "a type block carrying its own `when` whose condition FAILs (not SKIPs): the block is recorded SKIP but FAIL is returned to the rule",
+    "C04-3": "a rule name defined twice where the first definition SKIPs and a later one applies, referenced by name at least twice (rule-status memo keeps the first definition's status)",
+    "C05-3": "`validate --structured -o junit` with >= 2 data files: a later <testsuite> carries the failures of the files evaluated before it (same change class as C12-2; same bytes on repetition)",
+    "C06-3": "`validate --structured -o json|yaml|sarif` with an evaluation error in one (rules, data) pair followed by a FAIL in a later pair: exit 19 instead of an error exit",
+    "C09-3": "structured report over >= 2 rules files whose first file(s) have only SKIP rules for the data file: their names vanish from not_applicable (FileReport::combine fast path)",
+    "C12-3": "`validate --structured` with --input-parameters and >= 2 data files: the parameters are merged into the first data file only",
+    "C16-3": "`test -o junit` with a rule that has no expectation: counted in the failures attribute of <testsuite>/<testsuites> although no <failure> element exists",
+    "C17-3": "`-i <directory>` containing a non-data file (notes.txt, .DS_Store) that sorts before a parameter file: the walk stops there and later parameter files are never merged",
+    "C19-3": "two resources of one type setting the same property to the same text with different types (50 and \"50\"): one spelling is lost, the generated rule FAILs on its template",
 }
 
 
